@@ -47,11 +47,37 @@ class Path(PathRun, ExprMixin, CallMixin, BuiltinMixin, StmtMixin):
             return SBool(z3.Implies(a, self.truthy(self.eval(fr, node.args[1]))))
         return CallMixin.e_Call(self, fr, node)
 
+    def pure_ctor_fields(self, nm):
+        """field names of a pure constructor declared as {name: module}: read from `name = node('Name', 'f1 f2 ...')` in
+        that module of /repo (beanquery.parser.ast manufactures its node classes this way)"""
+        pc = getattr(self.d.contract, 'pure_ctors', None)
+        if not isinstance(pc, dict) or not pc.get(nm):
+            return None
+        m = modinfo.load(pc[nm])
+        call = m.assigns.get(nm, [None])[-1] if m is not None else None
+        cls = m.defs.get(nm, [None])[-1] if m is not None else None
+        if (isinstance(cls, ast.ClassDef) and len(cls.bases) == 1 and isinstance(cls.bases[0], ast.Name)
+                and not any(isinstance(st, ast.FunctionDef) for st in cls.body)):
+            # `class Match(BinaryOp): __slots__ = ()`: no constructor of its own, the fields of the manufactured base
+            call = m.assigns.get(cls.bases[0].id, [None])[-1]
+        if (isinstance(call, ast.Call) and isinstance(call.func, ast.Name) and call.func.id == 'node' and len(call.args) == 2
+                and all(isinstance(a, ast.Constant) and isinstance(a.value, str) for a in call.args)):
+            return call.args[1].value.split()
+        raise Unsupported(f'field list of {pc[nm]}.{nm} not found')
+
     def call_builtin(self, fr, f, args, kw, node=None):
         if f.name.startswith('purector!'):
             nm = f.name[9:]
             ts = [self.to_val(a) for a in args]
-            return SDyn(uf(f'ctor_{nm}_{len(ts)}', *([Val] * len(ts)), Val)(*ts))
+            t = uf(f'ctor_{nm}_{len(ts)}', *([Val] * len(ts)), Val)(*ts)
+            names = self.pure_ctor_fields(nm)
+            if names is not None:
+                # value object built by a generated dataclass constructor: its fields are the positional arguments
+                if len(ts) > len(names):
+                    raise PyRaise('TypeError', getattr(node, 'lineno', None), f'{nm}() takes {len(names)} positional arguments')
+                for a, v in zip(names, ts):
+                    self.assume(self.fld(a, t) == v)
+            return SDyn(t)
         if f.name.startswith('ctor!'):
             nm = f.name[5:]
             attrs = self.d.contract.opaque_ctors[nm]
@@ -508,8 +534,8 @@ class Driver:
                 goals = p.eval_contract_conjuncts(e, env2)
             except PyRaise as ex:
                 raise Unsupported(f'postcondition {lab} not evaluable: {ex}')
-            for goal in goals:
-                p.prove(goal, 'post', lab, getattr(p, 'cur_line', None), assume=False)
+            for k, goal in enumerate(goals):
+                p.prove(goal, 'post', lab, getattr(p, 'cur_line', None), assume=False, part=k)
         self.check_frame(p, allenv, 'normal')
 
     def check_frame(self, p, env, when):
